@@ -1165,3 +1165,41 @@ package lorawan
 //@ func lemmaC08_canonical_Proprietary
 //@   props C08
 //@   inlines (*PHYPayload).UnmarshalBinary (*MACPayload).UnmarshalBinary (*FHDR).UnmarshalBinary (PHYPayload).MarshalBinary (MACPayload).MarshalBinary (MACPayload).marshalPayload (FHDR).MarshalBinary
+//@ func lemmaC01_joinrequest
+//@   props C01
+//@   inlines (*PHYPayload).UnmarshalBinary (PHYPayload).MarshalBinary
+//@ func lemmaC01_rejoin02
+//@   props C01
+//@   inlines (*PHYPayload).UnmarshalBinary (PHYPayload).MarshalBinary
+//@ func lemmaC01_rejoin1
+//@   props C01
+//@   inlines (*PHYPayload).UnmarshalBinary (PHYPayload).MarshalBinary
+//@ func lemmaC01_joinaccept_cflist
+//@   props C01
+//@   inlines (*PHYPayload).UnmarshalBinary (PHYPayload).MarshalBinary (JoinAcceptPayload).MarshalBinary (*JoinAcceptPayload).UnmarshalBinary (CFList).MarshalBinary (*CFList).UnmarshalBinary
+//@ func lemmaC01_joinaccept
+//@   props C01
+//@   inlines (*PHYPayload).UnmarshalBinary (PHYPayload).MarshalBinary (JoinAcceptPayload).MarshalBinary (*JoinAcceptPayload).UnmarshalBinary (CFList).MarshalBinary (*CFList).UnmarshalBinary
+//@ func lemmaC01_dataframe
+//@   inline
+//@ func lemmaC01_dataframe1
+//@   inline
+//@ func verifOr
+//@   modifies nothing
+//@   ensures or: result == (a || b)
+//@ func lemmaC01_data_plain
+//@   props C01
+//@   inlines (*PHYPayload).UnmarshalBinary (*MACPayload).UnmarshalBinary (*FHDR).UnmarshalBinary (PHYPayload).MarshalBinary (MACPayload).MarshalBinary (MACPayload).marshalPayload (FHDR).MarshalBinary
+//@ func lemmaC01_data_port
+//@   props C01
+//@   inlines (*PHYPayload).UnmarshalBinary (*MACPayload).UnmarshalBinary (*FHDR).UnmarshalBinary (PHYPayload).MarshalBinary (MACPayload).MarshalBinary (MACPayload).marshalPayload (FHDR).MarshalBinary
+//@ func lemmaC01_data_fopts
+//@   props C01
+//@   inlines (*PHYPayload).UnmarshalBinary (*MACPayload).UnmarshalBinary (*FHDR).UnmarshalBinary (PHYPayload).MarshalBinary (MACPayload).MarshalBinary (MACPayload).marshalPayload (FHDR).MarshalBinary
+//@ func lemmaC01_data_fopts_port
+//@   props C01
+//@   inlines (*PHYPayload).UnmarshalBinary (*MACPayload).UnmarshalBinary (*FHDR).UnmarshalBinary (PHYPayload).MarshalBinary (MACPayload).MarshalBinary (MACPayload).marshalPayload (FHDR).MarshalBinary
+//@ func lemmaC01_fopts_commands
+//@   props C01
+//@   uses registry_ok
+//@   inlines (*PHYPayload).UnmarshalBinary (*MACPayload).UnmarshalBinary (*FHDR).UnmarshalBinary (PHYPayload).MarshalBinary (MACPayload).MarshalBinary (MACPayload).marshalPayload (FHDR).MarshalBinary (MACCommand).MarshalBinary (*PHYPayload).DecodeFOptsToMACCommands decodeDataPayloadToMACCommands (*MACCommand).UnmarshalBinary
